@@ -275,3 +275,38 @@ def ref_transformed(params: dict) -> float:
     lp_m = -0.5 * (m / 2.0) ** 2 - math.log(2.0) - 0.5 * LOG2PI
     lik = float(np.sum(-0.5 * (Y_TR - m) ** 2 / tau2 - 0.5 * math.log(tau2) - 0.5 * LOG2PI))
     return lp_t + lp_m + lik
+
+
+def build_class_transformed_model():
+    """
+    log_tau ~ N(0, 1); tau = exp(log_tau)
+    b ~ N(0, 1.5), transformed with the bijector CLASS tfb.Scale and a model-dependent
+    argument scale=tau:  b = tau * z,  z = "b_transformed" is the sampled parameter
+    y_i ~ N(b, 1)  (observed)
+    """
+    import jax.numpy as jnp
+    import liesel.model as lsl
+    import tensorflow_probability.substrates.jax.bijectors as tfb
+    import tensorflow_probability.substrates.jax.distributions as tfd
+
+    log_tau = lsl.param(jnp.float32(0.3), lsl.Dist(tfd.Normal, loc=0.0, scale=1.0), name="log_tau")
+    tau = lsl.Var(lsl.Calc(jnp.exp, log_tau), name="tau")
+    b = lsl.param(jnp.float32(0.6), lsl.Dist(tfd.Normal, loc=0.0, scale=1.5), name="b")
+    b.transform(tfb.Scale, scale=tau)
+    y = lsl.obs(jnp.asarray(Y_TR[:4], dtype=jnp.float32), lsl.Dist(tfd.Normal, loc=b, scale=1.0), name="y")
+    return lsl.GraphBuilder().add(y).build_model()
+
+
+TRC_PARAMS = ["b_transformed", "log_tau"]
+
+
+def ref_class_transformed(params: dict) -> float:
+    z = float(params["b_transformed"])
+    lt = float(params["log_tau"])
+    tau = math.exp(lt)
+    b = tau * z
+    lp_b = -0.5 * (b / 1.5) ** 2 - math.log(1.5) - 0.5 * LOG2PI
+    lp_z = lp_b + lt  # |d b / d z| = tau
+    lp_lt = -0.5 * lt**2 - 0.5 * LOG2PI
+    lik = float(np.sum(-0.5 * (Y_TR[:4] - b) ** 2 - 0.5 * LOG2PI))
+    return lp_z + lp_lt + lik
